@@ -313,8 +313,18 @@ def _formula_fn(lo, s):
 def _labels_fn(lo, labels):
     tree, j = lo.parse_tree(labels, 0)
 
+    def check_bases(t, x, th):
+        # the domain of the property: every power base (and sqrt / log argument) of the returned tree is positive here.
+        # sympy may have moved a sign into the base ((-1/a)**(-3) -> a**3), so the formula's own bases are not enough.
+        if len(t) > 1:
+            if t[0] in ('pow', 'sqrt', 'log') and not (lo.eval_tree(t[1], x, th) > 0):
+                raise lo.Undefined('non-positive power base in the label tree')
+            for c in t[1:]:
+                check_bases(c, x, th)
+
     def g(x, th):
         try:
+            check_bases(tree, x, th)
             return lo._fin(lo.eval_tree(tree, x, th))
         except lo.Undefined:
             raise
@@ -455,10 +465,10 @@ def search(ctx):
                 continue
             # well-formed prefix list
             if not lo.wellformed(labels):
-                if "-1" in labels and labels[0] == "*" and len(labels) == 2:
+                if any(labels[j] == "*" and labels[j + 1] == "-1" for j in range(len(labels) - 1)):
                     stats["drops_operand"] += 1
                     fail("labels %r are not a tree: to_list returns ['Mul'] + children[1].to_list() for Pow(..)*(-1) / Pow(..)/(-1), "
-                         "dropping the power; the reported complexity is 2" % (labels,),
+                         "dropping the power; the reported complexity is %d" % (labels, len(labels)),
                          "C18:to_list:pow-times-minus-one-drops-operand", input=inp, observed=labels, expected="a well-formed prefix list of the formula")
                 else:
                     fail("labels are not a well-formed prefix list", "C18:malformed", input=inp, observed=labels, expected="well-formed")
